@@ -70,6 +70,8 @@ def to_coq(c):
     if k == "unblind":
         return "KCUnblind %s %s %s %s %s %s" % (nat(c["N"]), nat(c["t"]), nat(c["L"]), nlist(c["pattern"]), nat(c["signer"]), b(c["accept"]))
     if k == "pok_complete":
+        if c.get("signer_ids") is not None:   # the API was given identifiers; the model is fed their ranks in the party list
+            assert [c["ids"].index(x) + 1 for x in c["signer_ids"]] == c["signers"], c
         return "KCPok %s %s %s %s %s %s" % (nat(c["N"]), nat(c["t"]), nat(c["L"]), nlist(c["pattern"]), nlist(c["signers"]), b(c["accept"]))
     if k == "dkg":
         T = list(range(c["N"] - c["t"] + 1, c["N"] + 1))   # the last t parties
@@ -142,7 +144,11 @@ def run_c08(chk, seed, tier):
         else:
             if (not c["accept"] or c.get("panic")) and hits < 3:
                 hits += 1
-                what = "honest %s step refused: %s" % (c["kind"], c.get("err"))
+                what = "honest %s step refused (parties %s, N=%d t=%d L=%d, message pattern %s%s%s): %s" % (
+                    c["kind"], c.get("ids"), c["N"], c["t"], c["L"], c.get("pattern"),
+                    ", signer rank %s" % c["signer"] if c.get("signer") else "",
+                    ", signers of ranks %s = parties %s" % (c["signers"], [c["ids"][k - 1] for k in c["signers"]]) if c.get("signers") else "",
+                    c.get("err"))
                 chk.monitor_hit("", "complete_%d.json" % hits, replay_doc("ps", "complete", seed, tier, c, what), what)
             if c["kind"] == "pok":
                 c["kind"] = "pok_complete"
@@ -156,13 +162,15 @@ def run_c08(chk, seed, tier):
     dk = [c for c in rows if c["kind"] == "dkg"]
     chk.cov["evaluations"] = len(rows) + sum(c.get("scalars", 0) for c in dk)
     chk.cov["distinct_nontrivial"] = len(set(vlib.canon_hash([c["kind"], c.get("N"), c.get("t"), c.get("L"), c.get("pattern"), c.get("signer"),
-                                                              c.get("signers"), c.get("order")]) for c in rows if c.get("accept") or c.get("ok")))
-    chk.cov["rule"] = ("one real in-process TPS key generation per (N,t,L) (N<=4, all t, L=1..4, shuffled start order), scalar-level comparison of "
+                                                              c.get("signers"), c.get("order"), c.get("ids")]) for c in rows if c.get("accept") or c.get("ok")))
+    chk.cov["rule"] = ("one real in-process TPS key generation per (N,t,L) (N<=4, all t, L=1..4, shuffled start order) with parties 1..N, plus one per party identifier "
+                       "set {1,2,4} {2,3,5} {1,3,4,6} {3,7} {0,1,2} {255,256,300} {65533,65534,65535} {4,2,1} (the model is fed ranks, the API identifiers), scalar-level comparison of "
                        "every share / published key / threshold key with the closed form sum_j p_j(i) (polynomials known through the seeded "
                        "randomness); per key set 2-3 message vectors incl. empty and equal entries: blind, sign at every party (KeyGen instance "
                        "or instance reloaded from share data), unblind, prove for every signer subset of size >= t (one also in reversed order), "
                        "verify; non-trivial = step accepted; distinct by (kind, N, t, L, message pattern, signer set)")
     chk.cov["input_distribution"] = dict(collections.Counter("%s N=%s t=%s" % (c["kind"], c.get("N"), c.get("t")) for c in rows))
+    chk.cov["party_identifier_sets"] = dict(collections.Counter(str(c.get("ids")) for c in rows if c["kind"] == "pok_complete"))
     chk.cov["scalar_comparisons"] = sum(c.get("scalars", 0) for c in dk)
     chk.cov["model_scenarios_evaluated"] = n_eval
     chk.cov["samples"] = dk[:1] + [c for c in rows if c["kind"] == "pok_complete"][:2] + [c for c in rows if c["kind"] == "unblind"][:1]
